@@ -26,8 +26,10 @@ def feat(rng):
                        max_depth=1, max_spine=rng.choice([2, 3, 4, 6]))
     if r < 0.62:   # instruction captures
         return RG.Feat(operands=0.5, icaps=0.5, groups=0.15, nots=0.1, max_depth=1, max_spine=rng.choice([2, 3, 4, 5]))
-    if r < 0.9:    # register families
+    if r < 0.8:    # register families
         return RG.Feat(operands=0.95, regfam=0.7, ocaps=0.1, groups=0.1, ogroups=0.1, max_depth=1, max_spine=rng.choice([2, 3, 4]))
+    if r < 0.9:    # register families, also as base / index register of a $deref
+        return RG.Feat(operands=0.95, regfam=0.6, deref=0.9, ocaps=0.1, max_depth=1, max_spine=rng.choice([2, 3, 4]))
     return RG.Feat(operands=0.95, ocaps=0.8, icaps=0.1, max_depth=0, max_spine=12)   # many names
 
 
@@ -160,6 +162,32 @@ def regfam_probes(ctx, d):
             other = rng.choice([w for w in letters[l1] if w != w_use] or [w_use])
             d.run_pattern([{"add": [1, name]}, {"mov": [name + sfx(other), name + sfx(w_use2)]}], "base", True)
             ctx.event("regfam_probes")
+    # the same capture used as base / index register of a memory operand (64-bit names): definition outside, use inside a $deref
+    # and the other way round; the other register of the family must not match
+    for prefix, letters in fams.items():
+        name = prefix + rng.choice(["", "-1", "_m"])
+        l1 = rng.choice(list(letters))
+        l2 = rng.choice([x for x in letters if x != l1] or [l1])
+        r1, r2 = letters[l1]["64"], letters[l2]["64"]
+        idx_ok = prefix != "&stackreg"
+        insts = [L.SInst(0x401000, "add", ["$0x1", r1], None, None, 3), L.SInst(0x401003, "mov", [f"0x8({r1})", "%rcx"], None, None, 4),
+                 L.SInst(0x401007, "add", ["$0x1", r1], None, None, 3), L.SInst(0x40100a, "mov", [f"0x8({r2})", "%rcx"], None, None, 4),
+                 L.SInst(0x40100e, "lea", [f"({r1})", "%rdx"], None, None, 3), L.SInst(0x401011, "sub", [r1, "%rdx"], None, None, 3),
+                 L.SInst(0x401014, "lea", [f"({r1})", "%rdx"], None, None, 3), L.SInst(0x401017, "sub", [r2, "%rdx"], None, None, 3)]
+        if idx_ok:
+            insts += [L.SInst(0x40101a, "add", ["$0x1", r1], None, None, 3), L.SInst(0x40101d, "mov", [f"(%r8,{r1},4)", "%rcx"], None, None, 4),
+                      L.SInst(0x401021, "add", ["$0x1", r1], None, None, 3), L.SInst(0x401024, "mov", [f"(%r8,{r2},4)", "%rcx"], None, None, 4)]
+        prep = dsl.Prepared(d.ws, insts, rng)
+        ctx.ran()
+        if not prep.verify(d.ws):
+            ctx.inconc("parser disagreement on synthetic listing")
+            continue
+        d.prep, d.style = prep, "regfam-deref-probe"
+        d.run_pattern([{"add": [1, name + rng.choice(["", ".64"])]}, {"mov": [{"$deref": {"main_reg": name + ".64", "constant_offset": "0x8"}}]}], "base", True)
+        d.run_pattern([{"lea": [{"$deref": {"main_reg": name + rng.choice(["", ".64"])}}]}, {"sub": [name + ".64"]}], "base", True)
+        if idx_ok:
+            d.run_pattern([{"add": [1, name]}, {"mov": [{"$deref": {"main_reg": "r8", "register_multiplier": name + ".64", "constant_multiplier": 4}}]}], "base", True)
+        ctx.event("regfam_deref_probes")
     d.flags = saved
 
 
